@@ -273,7 +273,7 @@ func RunC10(cfg simrt.Config, o world.Opts) *world.Result {
 	}
 	outDir := filepath.Join(base, fmt.Sprintf("w%d", o.Worker), "c10out")
 	s.Inline(func() {
-		p := progen.Gen(progen.Options{MaxFiles: 5, MaxDefs: 5, Unhashable: true, Annotations: true, Consts: true, ConstRefs: true, Unions: true, Exceptions: true, Defaults: true,
+		p := progen.Gen(progen.Options{MaxFiles: 5, MaxDefs: 5, Invalid: true, CapsWords: true, Unhashable: true, Annotations: true, Consts: true, ConstRefs: true, Unions: true, Exceptions: true, Defaults: true,
 			SameNames: true, Recursive: true, RecDefaults: true, StructConsts: true, WantService: simrt.Flip("c10.want-service", 0.7), GoNames: simrt.Flip("c10.go-names", 0.5)})
 		var g genOptsC10
 		if simrt.Flip("c10.options", 0.5) {
